@@ -49,7 +49,7 @@ def histTablesOf (input : Json) : Except String (List HistT) := do
 def histCanon (t : HistT) : Res StoredTable :=
   ingestTable (refSort t.pk) Facts.blockSize Facts.addRowMaxCell (2 ^ 40) t.columns t.pk t.rows
 
-def handleC01 (op : String) (input impl : Json) : Except String Json := do
+def handleC01Core (op : String) (input impl : Json) : Except String Json := do
   match op with
   | "ingest-big" =>
     -- size boundary: n distinct keys; the model's closed form (C01_unique_exact + C19_block_cut):
@@ -143,6 +143,29 @@ def handleC01 (op : String) (input impl : Json) : Except String Json := do
   | _ => throw s!"unknown op {op}"
 where
   hasDupKeysRows (pk : List Nat) (rows : List Row) : Bool := (distinctKeys pk rows).length != rows.length
+
+/-- C01 ops; "ingest-torn-spill": an ingest during which one spill file was cut short in the middle
+    of a field before the merge read it back (`cut`). The ingest fails, or what it stores satisfies
+    every clause of "ingest" for the rows of the CSV: it never hands back a table that lacks rows.
+    The model refuses (a torn record is never the end of a run); when no spill file was cut the case
+    is an "ingest" case. -/
+def handleC01 (op : String) (input impl : Json) : Except String Json := do
+  match op with
+  | "ingest-torn-spill" =>
+    let cutOf := fun (j : Json) => (fldD j "cut" (Json.bool false)).getBool?.toOption.getD false
+    if resClass impl == "err" && cutOf impl then
+      if (fldD impl "kind" Json.null).getStr?.toOption == some "ingest" then
+        return reply (Json.mkObj [("res", "err"), ("kind", "torn-spill-file-refused")]) true []
+      else
+        -- a table was handed back that cannot be read
+        return reply (Json.mkObj [("res", "err"), ("kind", "torn-spill-file-refused")]) false ["table-readable"]
+    let r ← handleC01Core "ingest" input impl
+    if resClass impl == "ok" && cutOf (fldD impl "val" Json.null) then
+      -- stored although a spill file was torn: acceptable only if complete (clauses above); the model refuses
+      let viol := ((fldD r "violations" (Json.arr #[])).getArr?.toOption.getD #[]).toList.filterMap (fun j => j.getStr?.toOption)
+      return reply (Json.mkObj [("res", "err"), ("kind", "torn-spill-file-refused")]) false (viol.map (fun s => "torn-spill:" ++ s))
+    return r
+  | _ => handleC01Core op input impl
 
 def fullTableOf (t : TableD) (hashes : List (List (Bytes × Bytes))) : FullTable :=
   { columns := t.columns, pk := t.pk, rowsCount := t.rowsCount, blocks := t.blocks.map (·.rows), hashes := hashes,
